@@ -63,6 +63,8 @@ def canon_local(body, l, env_alias, depth=0):
         return "var:" + nm if nm else "tmp"
     if l in env_alias:
         return env_alias[l]
+    if l in getattr(body, "alias", {}):
+        return body.alias[l]
     if 1 <= l <= body.arg_count:
         return "arg%d" % l
     defs = [d for d in body.defs.get(l, []) if d[0] in ("assign", "call")]
@@ -136,7 +138,7 @@ class Table:
         self._stack = _stack + (body.npath,)
         # region tables: paths begin at block `start` and end at a return or on reaching a block in `stop` (e.g. a loop header: one
         # iteration of the loop body); the result of such a path is the tuple of the values of the locals listed in `state`
-        self.start = start
+        self.start = start if start else getattr(body, "iteration_start", 0)
         self.stop = set(stop)
         self.state = list(state)
         self.rows = []        # (constraints list, result)
@@ -396,6 +398,8 @@ class Table:
                 else:
                     v = Val("sym", k)
                 if not dst["p"]:
+                    if dst["l"] in getattr(body, "alias", {}):
+                        v = Val("place", body.alias[dst["l"]])
                     env[dst["l"]] = v
                 else:
                     # store through a projection: remember it as an effect of the path (and for later reads)
